@@ -25,9 +25,17 @@ def run(ctx):
     rdy = q.raises(ir, 'self.header_sink.ready')
     ctx.ob('C47.accept-arm', 'TimestampPacketReceiver.header_sink.ready', len(rdy) == 1 and q.atoms(rdy[0]) == g,
            rdy[0].loc if rdy else None, 'the ITP header must be accepted (ready) in the same arm')
-    clr = q.clears(ir, 'self.update_received')
-    ctx.ob('C47.accept-arm', 'TimestampPacketReceiver.update_received.clear', len(clr) == 1 and clr[0].guard != upd[0].guard,
-           clr[0].loc if clr else None, 'update strobe must be cleared otherwise')
+    # the strobe is a register: under every valuation of the conditions its drivers mention its next value is 1 in the
+    # accepting arm and 0 otherwise (one-cycle truth table; None = no driver fires, the register would hold its value)
+    V = 'self.header_sink.valid'
+    itp = [a for a, p in g if p and a.startswith('%d == ' % ITP_TYPE)]
+    bad = None
+    if ok:
+        for asg, val in q.flag_values(ir, 'self.update_received', None, init=None):
+            if val is not (asg.get(V, False) and asg.get(itp[0], False)) and bad is None:
+                bad = (asg, val)
+    ctx.ob('C47.accept-arm', 'TimestampPacketReceiver.update_received.clear', ok and bad is None, upd[0].loc,
+           'update strobe must be cleared otherwise: next value %s when %s' % (bad and bad[1], bad and bad[0]))
     for name, (lo, hi) in fields.items():
         ds = ir.drivers(name, exact=True)
         ctx.need(len(ds) == 1, 'single writer of ' + name)
